@@ -117,8 +117,7 @@ def DumpCase.byteAt (d : DumpCase) (a : Nat) : Option UInt8 :=
   if a < d.wo then none else d.root[a - d.wo]?
 
 /-- cells of one data row checked against the buffer; returns the addresses of the byte cells -/
-def checkDataRow (d : DumpCase) (r : Row) : Except String (List Nat) := do
-  let some a := parseAddr d.o.addrbase (trimSp r.addr) | throw s!"address '{String.ofList r.addr}' does not parse"
+def checkDataRowAt (d : DumpCase) (r : Row) (a : Nat) : Except String (List Nat) := do
   -- the end-of-buffer marker is a '|' directly after the last pair (dump.go:310-314)
   let markPos := r.hex.idxOf '|'
   let hex := r.hex.map fun c => if c = '|' then ' ' else c
@@ -149,6 +148,10 @@ def checkDataRow (d : DumpCase) (r : Row) : Except String (List Nat) := do
   return shown
 where
   trimRight (cs : List Char) : List Char := (cs.reverse.dropWhile (· = ' ')).reverse
+
+def checkDataRow (d : DumpCase) (r : Row) : Except String (List Nat) := do
+  let some a := parseAddr d.o.addrbase (trimSp r.addr) | throw s!"address '{String.ofList r.addr}' does not parse"
+  checkDataRowAt d r a
 
 def isContig (start : Nat) : List Nat → Bool
   | [] => true
@@ -337,6 +340,167 @@ def stepTree (ws : List String) (obs : String) : String :=
         | .ok () => "OK"
   | _, _, _, _ => "BADOP tree args"
 
+/-! ### whole-tree dump with nested root buffers
+
+  `ntree k= lb= ab= sb= db= c= roots=<hex>:<bits>;… vals=<root>:<rootDepth>:<start>:<len>:<flags>,…`
+  vals = the values of the tree in dump order (fq's own WalkPreOrder, depth-limited); flags:
+  h header (depth 0 / root / format value), d displays data, e array-truncation line, x not reached
+  (after an array truncation; counts for the address column width only), r verbose range printed. -/
+
+structure TreeRec where
+  root : Nat
+  rootDepth : Nat
+  start : Nat
+  len : Nat
+  flags : List Char
+
+def parseRec (s : String) : Option TreeRec :=
+  match s.splitOn ":" with
+  | [r, rd, st, n, fl] => do
+    pure { root := ← r.toNat?, rootDepth := ← rd.toNat?, start := ← st.toNat?, len := ← n.toNat?,
+           flags := fl.toList }
+  | _ => none
+
+def parseRoot (s : String) : Option (List UInt8 × Nat) :=
+  match s.splitOn ":" with
+  | [h, l] => do pure (← bytesOfHex h, ← l.toNat?)
+  | _ => none
+
+/-- the data rows of one value (after its header row, if any) against the value's root buffer:
+    row `i` has the true address `line0 + i*lineBytes`; the printed address must read back to it, or
+    (known finding, nested root buffers only) be exactly the cut text the model predicts -/
+def recordRowsCheck (d : DumpCase) (W rd : Nat) (rows : List Row) : Except String Bool := do
+  let o := d.o
+  let startByte := d.start / 8
+  let stopByte := (d.start + d.len - 1) / 8
+  let line0 := startByte / o.lineBytes * o.lineBytes
+  let mut shown : List Nat := []
+  let mut truncated := false
+  let mut nested := false
+  let mut i := 0
+  for r in rows do
+    let a := trimSp r.addr
+    if a = ['*'] then
+      truncated := true
+      checkUntil d r.hex
+    else if a.isEmpty then
+      if !allBlank r.hex ∨ !allBlank r.ascii then throw "cells without an address"
+    else
+      if truncated then throw "data row after the truncation marker"
+      let ta := line0 + i * o.lineBytes
+      if parseAddr o.addrbase a ≠ some ta then
+        if rd ≥ 1 ∧ r.addr = addrCell o W rd ta then nested := true
+        else throw s!"row address '{String.ofList r.addr}' is not {ta} (root depth {rd})"
+      let s ← checkDataRowAt d r ta
+      shown := shown ++ s
+      i := i + 1
+  if !isContig startByte shown then throw "shown bytes are not the value's bytes in order, each once"
+  let mayTruncate := o.displayBytes > 0 ∧ d.len > o.displayBytes * 8
+  if truncated then
+    if !mayTruncate then throw "value truncated although display_bytes allows it completely"
+    if shown.length < o.displayBytes then throw "fewer than display_bytes bytes shown"
+    if startByte + shown.length > stopByte then throw "truncation marker although everything is shown"
+  else
+    if startByte + shown.length ≠ stopByte + 1 then throw "value not shown completely and no truncation marker"
+  return nested
+
+def checkVerboseTail (o : Opts) (start len : Nat) (tree : List Char) : Except String Unit := do
+  match lastTwo tree with
+  | none => throw "verbose range/size missing"
+  | some (rg, sz) =>
+    if parseRangeByteBits o.addrbase rg ≠ some (start, start + len) then
+      throw s!"verbose range '{String.ofList rg}' is not {start}..{start + len}"
+    match stripParens sz with
+    | some s =>
+      if parseByteBits o.sizebase s ≠ some len then throw s!"verbose size '{String.ofList sz}' is not {len} bits"
+    | none => throw "verbose size missing"
+
+structure TreeAcc where
+  cur : Nat := 0
+  div : Option String := none
+  nested : Nat := 0
+  hdrBad : Bool := false
+
+def stepNTree (ws : List String) (obs : String) : String :=
+  match kvNat ws "lb", kvNat ws "ab", kvNat ws "sb", kvNat ws "db", kv ws "roots", kv ws "vals" with
+  | some lb, some ab, some sb, some db, some rootsS, some valsS =>
+    if lb = 0 ∨ ab < 2 ∨ ab > 36 ∨ sb < 2 ∨ sb > 36 then "BADOP ntree args" else
+    match (rootsS.splitOn ";").mapM parseRoot, (valsS.splitOn ",").mapM parseRec with
+    | some roots, some recs =>
+      let o : Opts := ⟨lb, ab, sb, db⟩
+      let rootsA := roots.toArray.map fun (bs, l) => (bs, bs.toArray, l)
+      let lines := splitOnChar '\n' (obsText obs)
+      let lines := if lines.getLast? = some [] then lines.dropLast else lines
+      match lines with
+      | [] => "PROPFAIL nothing printed"
+      | l0 :: _ =>
+        let W := l0.idxOf '|'
+        match lines.mapM (splitRow W lb) with
+        | none => "PROPFAIL column bars are not aligned"
+        | some rowsL =>
+          let rows := rowsL.toArray
+          -- address column width: dump.go:352-358
+          let terms := recs.map fun r => (2 * r.rootDepth + digitsNeeded ab ((r.start + r.len + 7) / 8),
+            isPow ab ((r.start + r.len + 7) / 8))
+          let mhi := (terms.map (·.1)).foldl max 0
+          let mlo := (terms.map fun (t, q) => if q then t - 1 else t).foldl max 0
+          let wOk := mlo ≤ W ∧ W ≤ mhi
+          let pre (r : Row) : List Char := r.addr ++ ['|'] ++ r.hex ++ ['|'] ++ r.ascii ++ ['|']
+          let res : Except String TreeAcc := do
+            let mut acc : TreeAcc := {}
+            for rc in recs do
+              if rc.flags.contains 'x' then continue
+              if rc.flags.contains 'e' then
+                match rows[acc.cur]? with
+                | none => throw "rows missing for an array truncation line"
+                | some r =>
+                  if !allBlank r.addr ∨ !allBlank r.hex ∨ !allBlank r.ascii then throw "array truncation line shows cells"
+                  acc := { acc with cur := acc.cur + 1 }
+                continue
+              let some (rootL, rootArr, L) := rootsA[rc.root]? | throw "BADOP root index"
+              if rc.start + rc.len > L then throw "BADOP value outside its root"
+              let h := rc.flags.contains 'h'
+              let disp := rc.flags.contains 'd'
+              let model := treeValueRows o W rc.rootDepth h disp rootL L rc.start rc.len ['\n']
+              let k := model.length
+              let got := (rows.extract acc.cur (acc.cur + k)).toList
+              if got.length < k then throw "fewer rows than the values of the tree need"
+              if acc.div.isNone ∧ got.map pre ≠ model then
+                acc := { acc with div := some s!"value {rc.root}:{rc.start}:{rc.len} model={showText (model.flatMap (· ++ ['\n']))}" }
+              let d : DumpCase := { o := o, rootBits := L, start := rc.start, len := rc.len, wo := 0, root := rootArr }
+              -- header row
+              let (hdrRow, body) := if h then (got.head?, if disp then got.drop 1 else got) else (none, got)
+              match hdrRow with
+              | some hr =>
+                if !checkHeader o hr then acc := { acc with hdrBad := true }
+                if disp ∧ !allBlank hr.addr then throw "header row has an address"
+              | none => pure ()
+              if disp then
+                let n ← recordRowsCheck d W rc.rootDepth body
+                if n then acc := { acc with nested := acc.nested + 1 }
+              else
+                for r in body do
+                  if !allBlank r.addr ∨ (!h ∧ (!allBlank r.hex ∨ !allBlank r.ascii)) then throw "a value without data shows cells"
+              if rc.flags.contains 'r' then
+                match body.head? with
+                | some r => checkVerboseTail o rc.start rc.len r.tree
+                | none => throw "verbose row missing"
+              acc := { acc with cur := acc.cur + k }
+            if acc.cur ≠ rows.size then throw s!"{rows.size - acc.cur} rows beyond the values of the tree"
+            return acc
+          match res with
+          | .error e => if e.startsWith "BADOP" then e else s!"PROPFAIL {e}"
+          | .ok acc =>
+            let div := match acc.div with
+              | some m => s!" ;DIVERGE {m}"
+              | none => if wOk then "" else s!" ;DIVERGE address column width {W}, model {mlo}..{mhi}"
+            if acc.hdrBad ∧ lb ≤ ab * ab then s!"PROPFAIL column header does not name the columns{div}"
+            else if acc.nested > 0 then s!"KNOWN nested-root-address-truncated values={acc.nested}{div}"
+            else if acc.hdrBad then s!"KNOWN header-overflow lb={lb} addrbase={ab}{div}"
+            else if div.isEmpty then "OK" else "DIVERGE" ++ (div.drop 9).toString
+    | _, _ => "BADOP ntree roots/vals"
+  | _, _, _, _, _, _ => "BADOP ntree args"
+
 /-! ### numbers -/
 
 def stepFmt (ws : List String) (obs : String) : String :=
@@ -421,6 +585,7 @@ def stepC10 (op obs : String) : String :=
   | "digits" :: ws => stepDigits ws obs
   | "dump" :: ws => stepDump ws obs
   | "tree" :: ws => stepTree ws obs
+  | "ntree" :: ws => stepNTree ws obs
   | "json" :: mode :: _ => stepJson mode (dropWord (dropWord op.toList)) obs
   | _ => "BADOP op"
 
